@@ -36,18 +36,20 @@ Proof.
   destruct n as [s|l|m].
   - exact E.
   - destruct (mapM (reify f h) l) as [vs|] eqn:Hm; [|discriminate].
-    rewrite (mapM_impl _ (reify f' (h ++ e)) l vs); [exact E| |exact Hm].
+    rewrite (mapM_impl (reify f h) (reify f' (h ++ e)) l vs); [exact E| |exact Hm].
     intros x y _ Hx. apply IH; [exact Hx|lia].
-  - match type of E with option_map _ (mapM ?F m) = _ => destruct (mapM F m) as [vs|] eqn:Hm; [|discriminate] end.
-    match goal with |- option_map _ (mapM ?G m) = _ => rewrite (mapM_impl _ G m vs); [exact E| |exact Hm] end.
-    intros x y _ Hx. cbv beta in *.
+  - remember (fun kv : bytes * addr => option_map (fun v => (fst kv, v)) (reify f h (snd kv))) as F.
+    remember (fun kv : bytes * addr => option_map (fun v => (fst kv, v)) (reify f' (h ++ e) (snd kv))) as G.
+    destruct (mapM F m) as [vs|] eqn:Hm; [|discriminate].
+    rewrite (mapM_impl F G m vs); [exact E| |exact Hm].
+    intros x y _ Hx. subst F G. cbv beta in *.
     destruct (reify f h (snd x)) as [w|] eqn:Hw; [|discriminate].
     rewrite (IH h (snd x) w f' e Hw); [exact Hx|lia].
 Qed.
 
 Lemma value_ext h a v e : value h a = Some v -> value (h ++ e) a = Some v.
 Proof.
-  unfold value. intro E. apply reify_weaken; [exact E|]. rewrite app_length. lia.
+  unfold value. intro E. apply (reify_weaken (S (length h))); [exact E|]. rewrite app_length. lia.
 Qed.
 
 Fixpoint jdepth (j : json) : nat :=
@@ -78,13 +80,13 @@ Proof. reflexivity. Qed.
 
 Definition alloc_ok (j : json) : Prop :=
   forall h, exists e,
-    fst (alloc j h) = h ++ e /\ (jdepth j < length e)%nat /\
+    fst (alloc j h) = h ++ e /\ (jdepth j <= length e)%nat /\
     (length h <= snd (alloc j h))%nat /\
     reify (S (jdepth j)) (h ++ e) (snd (alloc j h)) = Some j.
 
 Lemma alloc_scalar j h :
   alloc j h = (h ++ [NScal j], length h) -> jdepth j = O ->
-  exists e, fst (alloc j h) = h ++ e /\ (jdepth j < length e)%nat /\
+  exists e, fst (alloc j h) = h ++ e /\ (jdepth j <= length e)%nat /\
             (length h <= snd (alloc j h))%nat /\
             reify (S (jdepth j)) (h ++ e) (snd (alloc j h)) = Some j.
 Proof.
@@ -104,14 +106,14 @@ Lemma alloc_list_spec l : Forall alloc_ok l -> forall h, exists e,
 Proof.
   induction 1 as [|x l Hx _ IH]; intro h.
   - exists []. simpl. rewrite app_nil_r. repeat split; [lia|constructor].
-  - simpl. destruct (Hx h) as [e1 [E1 [D1 [_ R1]]]].
-    destruct (alloc x h) as [h1 a] eqn:Ea. simpl in E1, R1. subst h1.
+  - cbn [alloc_list maxd_list]. destruct (Hx h) as [e1 [E1 [D1 [_ R1]]]].
+    destruct (alloc x h) as [h1 a] eqn:Ea. cbn [fst snd] in E1, R1. subst h1.
     destruct (IH (h ++ e1)) as [e2 [E2 [D2 R2]]].
-    destruct (alloc_list l (h ++ e1)) as [h2 al] eqn:El. simpl in E2, R2 |- *. subst h2.
+    destruct (alloc_list l (h ++ e1)) as [h2 al] eqn:El. cbn [fst snd] in E2, R2 |- *. subst h2.
     exists (e1 ++ e2). rewrite app_assoc. repeat split.
     + rewrite app_length. lia.
     + constructor.
-      * apply reify_weaken; [exact R1|lia].
+      * eapply reify_weaken; [exact R1|lia].
       * exact R2.
 Qed.
 
@@ -123,14 +125,14 @@ Lemma alloc_members_spec m : Forall (fun kv => alloc_ok (snd kv)) m -> forall h,
 Proof.
   induction 1 as [|x l Hx _ IH]; intro h.
   - exists []. simpl. rewrite app_nil_r. repeat split; [lia|constructor].
-  - simpl. destruct (Hx h) as [e1 [E1 [D1 [_ R1]]]].
-    destruct (alloc (snd x) h) as [h1 a] eqn:Ea. simpl in E1, R1. subst h1.
+  - cbn [alloc_members maxd_members]. destruct (Hx h) as [e1 [E1 [D1 [_ R1]]]].
+    destruct (alloc (snd x) h) as [h1 a] eqn:Ea. cbn [fst snd] in E1, R1. subst h1.
     destruct (IH (h ++ e1)) as [e2 [E2 [D2 R2]]].
-    destruct (alloc_members l (h ++ e1)) as [h2 al] eqn:El. simpl in E2, R2 |- *. subst h2.
+    destruct (alloc_members l (h ++ e1)) as [h2 al] eqn:El. cbn [fst snd] in E2, R2 |- *. subst h2.
     exists (e1 ++ e2). rewrite app_assoc. repeat split.
     + rewrite app_length. lia.
     + constructor.
-      * simpl. split; [reflexivity|]. apply reify_weaken; [exact R1|lia].
+      * cbn [fst snd]. split; [reflexivity|]. eapply reify_weaken; [exact R1|lia].
       * exact R2.
 Qed.
 
@@ -147,29 +149,43 @@ Proof.
   - apply IH. intros a' b' Hin. apply H. right. exact Hin.
 Qed.
 
+Lemma reify_S f h a :
+  reify (S f) h a =
+  match nth_error h a with
+  | None => None
+  | Some (NScal v) => Some v
+  | Some (NArr l) => option_map JArr (mapM (reify f h) l)
+  | Some (NObj m) =>
+      option_map JObj (mapM (fun kv => option_map (fun v => (fst kv, v)) (reify f h (snd kv))) m)
+  end.
+Proof. reflexivity. Qed.
+
+Lemma nth_error_last {A} (l : list A) x : nth_error (l ++ [x]) (length l) = Some x.
+Proof. rewrite nth_error_app2 by lia. rewrite Nat.sub_diag. reflexivity. Qed.
+
 Theorem alloc_spec : forall j, alloc_ok j.
 Proof.
   induction j using json_ind'; intro h; try (apply alloc_scalar; reflexivity).
   - (* arrays *)
     destruct (alloc_list_spec l H h) as [e [E [D R]]].
-    rewrite alloc_arr. destruct (alloc_list l h) as [h1 al]. simpl in E, R |- *. subst h1.
+    rewrite alloc_arr, jdepth_arr. destruct (alloc_list l h) as [h1 al]. cbn [fst snd] in E, R |- *. subst h1.
     exists (e ++ [NArr al]). rewrite app_assoc. repeat split.
-    + rewrite app_length. simpl. fold (maxd_list l). lia.
+    + rewrite app_length. cbn [length]. lia.
     + rewrite app_length. lia.
-    + fold (maxd_list l). rewrite nth_error_app2 by lia. rewrite Nat.sub_diag. simpl.
-      rewrite (mapM_forall2 _ al l); [reflexivity|].
+    + rewrite reify_S, nth_error_last.
+      rewrite (mapM_forall2 (reify (S (maxd_list l)) ((h ++ e) ++ [NArr al])) al l); [reflexivity|].
       eapply Forall2_weaken_in; [|exact R]. intros a b Hin Hr. cbv beta in *.
-      apply reify_weaken; [exact Hr|]. apply maxd_list_in in Hin. lia.
+      eapply reify_weaken; [exact Hr|]. apply maxd_list_in in Hin. lia.
   - (* objects *)
     destruct (alloc_members_spec m H h) as [e [E [D R]]].
-    rewrite alloc_obj. destruct (alloc_members m h) as [h1 al]. simpl in E, R |- *. subst h1.
+    rewrite alloc_obj, jdepth_obj. destruct (alloc_members m h) as [h1 al]. cbn [fst snd] in E, R |- *. subst h1.
     exists (e ++ [NObj al]). rewrite app_assoc. repeat split.
-    + rewrite app_length. simpl. fold (maxd_members m). lia.
+    + rewrite app_length. cbn [length]. lia.
     + rewrite app_length. lia.
-    + fold (maxd_members m). rewrite nth_error_app2 by lia. rewrite Nat.sub_diag. simpl.
+    + rewrite reify_S, nth_error_last.
       match goal with |- option_map _ (mapM ?F al) = _ => rewrite (mapM_forall2 F al m); [reflexivity|] end.
       eapply Forall2_weaken_in; [|exact R]. intros a b Hin [Hk Hr]. cbv beta in *.
-      rewrite (reify_weaken _ _ _ _ (S (maxd_members m)) [] Hr).
+      rewrite (reify_weaken _ _ _ _ (S (maxd_members m)) [NObj al] Hr).
       * rewrite Hk. destruct b; reflexivity.
       * apply maxd_members_in in Hin. lia.
 Qed.
@@ -181,7 +197,7 @@ Theorem alloc_value j h :
 Proof.
   destruct (alloc_spec j h) as [e [E [D [F R]]]]. exists e. repeat split; [exact E|exact F|].
   rewrite E. unfold value. rewrite <- (app_nil_r (h ++ e)) at 2.
-  apply reify_weaken; [exact R|]. rewrite app_length. lia.
+  eapply reify_weaken; [exact R|]. rewrite app_length. lia.
 Qed.
 
 Lemma upd_other {A} (l : list A) a x b : a <> b -> nth_error (upd l a x) b = nth_error l b.
@@ -237,7 +253,7 @@ Proof.
         -- right. exists (o :: pre), o', rest', st', fs. subst rest. simpl. repeat split.
            ++ econstructor; [exact Hin|exact R].
            ++ exact F.
-           ++ rewrite Er. repeat f_equal. lia.
+           ++ rewrite Er. replace (S (S i + length pre)) with (S (i + length (o :: pre))) by (simpl; lia). reflexivity.
     + intros [[st' [R E]]|[pre [o' [rest' [st' [fs [E [R [F Er]]]]]]]]].
       * inversion R; subst. rewrite app_nil_r in *. exists (Ok st1). split; [assumption|].
         apply IH. left. exists st'. split; [assumption|reflexivity].
@@ -247,7 +263,7 @@ Proof.
         -- simpl in E. inversion E; subst o1 rest. inversion R; subst.
            exists (Ok st1). split; [assumption|]. apply IH. right.
            exists pre, o', rest', st', fs. repeat split; [assumption|exact F|].
-           repeat f_equal. simpl. lia.
+           replace (S (S i + length pre)) with (S (i + length (o :: pre))) by (simpl; lia). reflexivity.
 Qed.
 
 (* the exit status is 0 iff every option succeeded; otherwise it is the 1-based index k of the
@@ -285,3 +301,419 @@ Proof.
     exists pre, o, rest, st', fs. repeat split; assumption.
 Qed.
 
+
+(* ================================================================== C. reading outcome lists *)
+
+Lemma set_inv_false_id st : inv st = false -> set_inv false st = st.
+Proof. destruct st; simpl; intros ->; reflexivity. Qed.
+
+Definition plain (o : opt) : bool := match o with OAssert _ | ONot => false | _ => true end.
+
+Lemma step_ok_plain st o nxt st' :
+  plain o = true -> In (Ok st') (step st o nxt) -> In (Ok st') (step_plain (set_inv false st) o).
+Proof.
+  destruct o; try discriminate; intros _ H; unfold step in H; destruct (inv st) eqn:I;
+    try (destruct H as [H|H]; [discriminate H|exact H]);
+    rewrite set_inv_false_id by exact I; exact H.
+Qed.
+
+Lemma step_fail_plain st o nxt :
+  plain o = true -> (forall r, In r (step_plain (set_inv false st) o) -> is_fail r = true) ->
+  forall r, In r (step st o nxt) -> is_fail r = true.
+Proof.
+  destruct o; try discriminate; intros _ H r Hr; unfold step in Hr; destruct (inv st) eqn:I;
+    try (destruct Hr as [Hr|Hr]; [subst r; reflexivity|apply H; exact Hr]);
+    rewrite set_inv_false_id in H by exact I; apply H; exact Hr.
+Qed.
+
+Lemma guard_cyc_ok p s' s x : In (Ok x) (guard_cyc p s' s) -> x = s'.
+Proof.
+  unfold guard_cyc. destruct (value (hp s') p).
+  - intros [E|[]]. inversion E. reflexivity.
+  - intros [E|[E|[]]]; [discriminate E|inversion E; reflexivity].
+Qed.
+
+Lemma fail_w_not_ok d s x : In (Ok x) (fail_w d s) -> False.
+Proof.
+  destruct d; simpl.
+  - intros [E|[]]. discriminate E.
+  - intros [E|[E|[]]]; discriminate E.
+Qed.
+
+Lemma fail_w_fails d s r : In r (fail_w d s) -> is_fail r = true.
+Proof.
+  destruct d; simpl.
+  - intros [E|[]]. subst. reflexivity.
+  - intros [E|[E|[]]]; subst; reflexivity.
+Qed.
+
+(* take an hypothesis  H : In (Ok st') <outcome list>  apart *)
+Ltac crack H :=
+  repeat match type of H with
+  | In _ (match ?x with _ => _ end) => destruct x eqn:?
+  | In _ (if ?x then _ else _) => destruct x eqn:?
+  | In _ (guard_cyc _ _ _) => apply guard_cyc_ok in H; subst
+  | In _ (fail_w _ _) => apply fail_w_not_ok in H; destruct H
+  | In _ (_ :: _) => destruct H as [H|H]
+  | In _ [] => destruct H
+  | fail _ = Ok _ => discriminate H
+  | Fail _ = Ok _ => discriminate H
+  | Ok _ = Ok _ => inversion H; clear H; subst
+  end.
+
+Lemma push_val_stk v st : stk (push_val v st) = snd (alloc v (hp st)) :: stk st.
+Proof. unfold push_val. destruct (alloc v (hp st)). reflexivity. Qed.
+Lemma push_val_hp v st : hp (push_val v st) = fst (alloc v (hp st)).
+Proof. unfold push_val. destruct (alloc v (hp st)). reflexivity. Qed.
+Lemma push_val_out v st : out (push_val v st) = out st.
+Proof. unfold push_val. destruct (alloc v (hp st)). reflexivity. Qed.
+Lemma push_val_files v st : files (push_val v st) = files st.
+Proof. unfold push_val. destruct (alloc v (hp st)). reflexivity. Qed.
+Lemma push_val_inv v st : inv (push_val v st) = inv st.
+Proof. unfold push_val. destruct (alloc v (hp st)). reflexivity. Qed.
+
+(* pushing a value: one new cell on the stack, the store is extended (old cells untouched),
+   the new cell is fresh and holds exactly the value *)
+Lemma push_val_spec v st :
+  exists a e, stk (push_val v st) = a :: stk st /\ hp (push_val v st) = hp st ++ e /\
+              (length (hp st) <= a)%nat /\ value (hp (push_val v st)) a = Some v /\
+              out (push_val v st) = out st /\ files (push_val v st) = files st /\
+              inv (push_val v st) = inv st.
+Proof.
+  destruct (alloc_value v (hp st)) as [e [E [F V]]].
+  exists (snd (alloc v (hp st))), e.
+  rewrite push_val_stk, push_val_hp, push_val_out, push_val_files, push_val_inv.
+  repeat split; assumption.
+Qed.
+
+Lemma step_assert_ok a st st' : In (Ok st') (step_assert a st) -> st' = set_inv false st.
+Proof. unfold step_assert. intro H. crack H; reflexivity. Qed.
+
+Lemma step_not_ok st nxt st' : In (Ok st') (step st ONot nxt) -> st' = set_inv true st.
+Proof. unfold step. intro H. apply in_app_or in H. destruct H as [H|H]; crack H; reflexivity. Qed.
+
+(* ================================================================== D. frame: the stack *)
+
+Inductive seffect := SPush | SPop | SSame | SMove (n : nat).
+
+Definition stack_effect (o : opt) : seffect :=
+  match o with
+  | OQuery | OJson _ | OCopy | OQuote _ | OLength | OGet _ | OB64Load | OB64Dump => SPush
+  | OUnwind => SPop
+  | OMove n => SMove n
+  | _ => SSame
+  end.
+
+Definition stack_frame (o : opt) (s s' : list addr) : Prop :=
+  match stack_effect o with
+  | SPush => exists a, s' = a :: s
+  | SPop => exists t, s = t :: s'
+  | SSame => s' = s
+  | SMove n => exists t r, s = t :: r /\
+                 (((n <= length r)%nat /\ s' = firstn n r ++ t :: skipn n r) \/
+                  ((length r < n)%nat /\ s' = r ++ [t]))
+  end.
+
+Lemma frame_stack_plain s o st' : In (Ok st') (step_plain s o) -> stack_frame o (stk s) (stk st').
+Proof.
+  destruct o; unfold stack_frame; cbn [stack_effect step_plain]; intro H.
+  - apply step_assert_ok in H. subst. reflexivity.
+  - crack H. reflexivity.
+  - crack H; rewrite push_val_stk; eexists; reflexivity.
+  - crack H.
+    + exists a, l. split; [reflexivity|]. left. split; [apply Nat.leb_le; assumption|reflexivity].
+    + exists a, l. split; [reflexivity|]. right. split; [apply Nat.leb_gt; assumption|reflexivity].
+  - crack H. eexists; reflexivity.
+  - crack H. rewrite push_val_stk; eexists; reflexivity.
+  - crack H. rewrite push_val_stk; eexists; reflexivity.
+  - crack H. rewrite push_val_stk; eexists; reflexivity.
+  - crack H; destruct d; reflexivity.
+  - crack H; destruct d; reflexivity.
+  - crack H; destruct d; reflexivity.
+  - crack H; reflexivity.
+  - crack H; reflexivity.
+  - crack H; reflexivity.
+  - crack H; reflexivity.
+  - crack H; reflexivity.
+  - crack H; rewrite push_val_stk; eexists; reflexivity.
+  - crack H; reflexivity.
+  - crack H; eexists; reflexivity.
+  - crack H; reflexivity.
+  - crack H; rewrite push_val_stk; eexists; reflexivity.
+  - crack H; rewrite push_val_stk; eexists; reflexivity.
+Qed.
+
+(* for EVERY option: which cells of the stack a successful execution touches *)
+Theorem frame_stack st o nxt st' : In (Ok st') (step st o nxt) -> stack_frame o (stk st) (stk st').
+Proof.
+  intro H. destruct (plain o) eqn:P.
+  - exact (frame_stack_plain _ _ _ (step_ok_plain _ _ _ _ P H)).
+  - destruct o; try discriminate.
+    + apply step_assert_ok in H. subst. reflexivity.
+    + apply step_not_ok in H. subst. reflexivity.
+Qed.
+
+(* ================================================================== E. frame: the store *)
+
+Inductive heffect := HSame | HAlloc | HTop | HPrev.
+
+Definition heap_effect (o : opt) : heffect :=
+  match o with
+  | OQuery | OJson _ | OCopy | OQuote _ | OLength | OB64Load | OB64Dump => HAlloc
+  | OTrunc _ | ODelete _ | OEmpty => HTop
+  | OInsert _ | OAppend | OExtend | OSet _ => HPrev
+  | _ => HSame
+  end.
+
+Definition heap_frame (o : opt) (s : state) (h' : heap) : Prop :=
+  match heap_effect o with
+  | HSame => h' = hp s
+  | HAlloc => exists e, h' = hp s ++ e
+  | HTop => h' = hp s \/ exists t n, top_addr s = Some t /\ h' = upd (hp s) t n
+  | HPrev => exists p n, prev_addr s = Some p /\ h' = upd (hp s) p n
+  end.
+
+Lemma push_val_ext v st : exists e, hp (push_val v st) = hp st ++ e.
+Proof. destruct (push_val_spec v st) as [a [e [_ [E _]]]]. exists e. exact E. Qed.
+
+Lemma frame_heap_plain s o st' : In (Ok st') (step_plain s o) -> heap_frame o s (hp st').
+Proof.
+  destruct o; unfold heap_frame; cbn [heap_effect step_plain]; intro H;
+    try (apply step_assert_ok in H; subst; reflexivity);
+    try (crack H; try reflexivity; try apply push_val_ext; try (destruct d; reflexivity); fail).
+  - (* -t *) crack H; try (left; reflexivity); right; eexists; eexists; (split; [reflexivity|reflexivity]).
+  - (* -i *) crack H; eexists; eexists; (split; [reflexivity|reflexivity]).
+  - (* -a *) crack H; eexists; eexists; (split; [reflexivity|reflexivity]).
+  - (* -x *) crack H; eexists; eexists; (split; [reflexivity|reflexivity]).
+  - (* -d *) crack H; try (left; reflexivity); right; eexists; eexists; (split; [reflexivity|reflexivity]).
+  - (* -e *) crack H; right; eexists; eexists; (split; [reflexivity|reflexivity]).
+  - (* -s *) crack H; eexists; eexists; (split; [reflexivity|reflexivity]).
+Qed.
+
+(* for EVERY option: which cells of the store a successful execution touches.  HAlloc: the old
+   store is a prefix of the new one; HTop / HPrev: only the node of TOP / PREV is replaced
+   ([upd_other]: every other address keeps its node) *)
+Theorem frame_heap st o nxt st' : In (Ok st') (step st o nxt) -> heap_frame o st (hp st').
+Proof.
+  intro H. destruct (plain o) eqn:P.
+  - exact (frame_heap_plain _ _ _ (step_ok_plain _ _ _ _ P H)).
+  - destruct o; try discriminate.
+    + apply step_assert_ok in H. subst. reflexivity.
+    + apply step_not_ok in H. subst. reflexivity.
+Qed.
+
+(* values that could be read before an allocating option read the same afterwards *)
+Corollary frame_heap_alloc_values st o nxt st' b v :
+  heap_effect o = HAlloc -> In (Ok st') (step st o nxt) ->
+  value (hp st) b = Some v -> value (hp st') b = Some v.
+Proof.
+  intros E H V. apply frame_heap in H. unfold heap_frame in H. rewrite E in H.
+  destruct H as [e ->]. apply value_ext. exact V.
+Qed.
+
+(* ================================================================== F. frame: stdout, files, the -X flag *)
+
+Definition io_frame (o : opt) (s s' : state) : Prop :=
+  match o with
+  | OOutput d | OForeach d | OUnquote d =>
+      exists data,
+        match d with
+        | DStdout => out s' = out s ++ data /\ files s' = files s
+        | DFile p => out s' = out s /\ files s' = aset p data (files s)
+        end
+  | _ => out s' = out s /\ files s' = files s
+  end.
+
+Lemma write_io d data s :
+  match d with
+  | DStdout => out (write d data s) = out s ++ data /\ files (write d data s) = files s
+  | DFile p => out (write d data s) = out s /\ files (write d data s) = aset p data (files s)
+  end.
+Proof. destruct d; split; reflexivity. Qed.
+
+Lemma frame_io_plain s o st' : In (Ok st') (step_plain s o) -> io_frame o s st'.
+Proof.
+  destruct o; unfold io_frame; cbn [step_plain]; intro H;
+    try (apply step_assert_ok in H; subst; split; reflexivity);
+    try (crack H; try (split; reflexivity); try (rewrite push_val_out, push_val_files; split; reflexivity); fail).
+  - crack H. eexists. apply write_io.
+  - crack H. eexists. apply write_io.
+  - crack H; eexists; apply write_io.
+Qed.
+
+(* only -o -f -u write, and they only append to stdout resp. (re)write their file *)
+Theorem frame_io st o nxt st' : In (Ok st') (step st o nxt) -> io_frame o st st'.
+Proof.
+  intro H. destruct (plain o) eqn:P.
+  - exact (frame_io_plain _ _ _ (step_ok_plain _ _ _ _ P H)).
+  - destruct o; try discriminate.
+    + apply step_assert_ok in H. subst. split; reflexivity.
+    + apply step_not_ok in H. subst. split; reflexivity.
+Qed.
+
+Lemma frame_flag_plain s o st' : inv s = false -> In (Ok st') (step_plain s o) -> o <> ONot -> inv st' = false.
+Proof.
+  destruct o; cbn [step_plain]; intros I H N; try congruence;
+    try (apply step_assert_ok in H; subst; reflexivity);
+    try (crack H; try exact I; try (rewrite push_val_inv; exact I); try (destruct d; exact I); fail).
+Qed.
+
+(* the -X flag is set by -X only and never survives another option *)
+Theorem frame_flag st o nxt st' :
+  In (Ok st') (step st o nxt) -> inv st' = match o with ONot => true | _ => false end.
+Proof.
+  intro H. destruct (plain o) eqn:P.
+  - assert (inv st' = false).
+    { eapply frame_flag_plain; [|exact (step_ok_plain _ _ _ _ P H)|destruct o; discriminate]. reflexivity. }
+    destruct o; try discriminate; assumption.
+  - destruct o; try discriminate.
+    + apply step_assert_ok in H. subst. reflexivity.
+    + apply step_not_ok in H. subst. reflexivity.
+Qed.
+
+(* ================================================================== G. type errors and missing operands *)
+
+Inductive kind := KNull | KTrue | KFalse | KInt | KReal | KStr | KArr | KObj.
+
+Definition kind_of (n : node) : kind :=
+  match n with
+  | NArr _ => KArr
+  | NObj _ => KObj
+  | NScal (JStr _) => KStr
+  | NScal (JInt _) => KInt
+  | NScal (JReal _) => KReal
+  | NScal (JBool true) => KTrue
+  | NScal (JBool false) => KFalse
+  | NScal _ => KNull
+  end.
+
+Definition kind_eqb (a b : kind) : bool :=
+  match a, b with
+  | KNull, KNull | KTrue, KTrue | KFalse, KFalse | KInt, KInt | KReal, KReal
+  | KStr, KStr | KArr, KArr | KObj, KObj => true
+  | _, _ => false
+  end.
+
+Definition top_kind (st : state) : option kind := option_map kind_of (top_node st).
+Definition prev_kind (st : state) : option kind := option_map kind_of (prev_node st).
+Definition top_present (st : state) : bool := match top_addr st with Some _ => true | None => false end.
+Definition prev_present (st : state) : bool := match prev_addr st with Some _ => true | None => false end.
+
+(* what the manual demands of an operand: nothing, that it is there, or that it is there with one
+   of the listed types ("TOP (arr.)", "PREV (obj.)", "Assert TOP to be ...") *)
+Inductive need := NoNeed | Any | OneOf (ks : list kind).
+
+Definition all_kinds : list kind := [KNull; KTrue; KFalse; KInt; KReal; KStr; KArr; KObj].
+
+Definition assert_kinds (a : assertion) : list kind :=
+  match a with
+  | AObject => [KObj] | AArray => [KArr] | AString => [KStr] | AInteger => [KInt] | AReal => [KReal]
+  | ANumber => [KInt; KReal] | ATrue => [KTrue] | AFalse => [KFalse] | ABoolean => [KTrue; KFalse]
+  | ANull => [KNull]
+  | AEqual => all_kinds
+  end.
+
+Definition req_top (o : opt) : need :=
+  match o with
+  | OAssert a => OneOf (assert_kinds a)
+  | ONot | OQuery | OJson _ | OQuote _ => NoNeed
+  | OMove _ | OUnwind | OCopy | OOutput _ | OB64Dump | OInsert _ | OAppend | OSet _ => Any
+  | OForeach _ | OEmpty | ODelete _ | OGet _ | OExtend => OneOf [KArr; KObj]
+  | OUnquote _ | OB64Load => OneOf [KStr]
+  | OTrunc _ => OneOf [KArr]
+  | OLength => OneOf [KArr; KStr; KObj]
+  end.
+
+Definition req_prev (o : opt) : need :=
+  match o with
+  | OAssert AEqual => OneOf all_kinds
+  | OInsert _ => OneOf [KArr]
+  | OAppend | OExtend | OSet _ => OneOf [KArr; KObj]
+  | _ => NoNeed
+  end.
+
+(* -a into an object needs an object on TOP; -x needs two of a kind *)
+Definition req_joint (o : opt) (t p : option kind) : bool :=
+  match o, t, p with
+  | OAppend, Some t, Some KObj => kind_eqb t KObj
+  | OExtend, Some t, Some p => kind_eqb t p
+  | _, _, _ => true
+  end.
+
+Definition meets (nd : need) (present : bool) (k : option kind) : bool :=
+  match nd with
+  | NoNeed => true
+  | Any => present
+  | OneOf ks => match k with Some k => existsb (kind_eqb k) ks | None => false end
+  end.
+
+Definition operands_ok (st : state) (o : opt) : bool :=
+  meets (req_top o) (top_present st) (top_kind st) &&
+  meets (req_prev o) (prev_present st) (prev_kind st) &&
+  req_joint o (top_kind st) (prev_kind st).
+
+Ltac crackf H :=
+  repeat match type of H with
+  | In _ (match ?x with _ => _ end) => destruct x eqn:?
+  | In _ (if ?x then _ else _) => destruct x eqn:?
+  | In _ (fail_w _ _) => apply fail_w_fails in H
+  | In _ (guard_cyc _ _ _) => unfold guard_cyc in H
+  | In _ (_ :: _) => destruct H as [H|H]
+  | In _ [] => destruct H
+  end.
+
+Lemma assert_wrong a st :
+  inv st = false -> operands_ok st (OAssert a) = false ->
+  forall r, In r (step_assert a st) -> is_fail r = true.
+Proof.
+  intros I M r H. unfold step_assert in H. rewrite I in H.
+  unfold operands_ok, top_kind, prev_kind in M. cbn [req_top req_prev req_joint] in M.
+  assert (V : holds a st = VMissing \/ holds a st = VHolds false).
+  { unfold holds.
+    destruct a; try (destruct (top_node st) as [[[]|?|?]|]; cbn in *; try discriminate; auto;
+                     try destruct b; try discriminate; auto; fail).
+    destruct (top_node st) as [n|], (prev_node st) as [n'|]; cbn in *; auto.
+    exfalso. destruct n as [[]|?|?]; try destruct b; destruct n' as [[]|?|?]; try destruct b; discriminate. }
+  destruct V as [V|V]; rewrite V in H; cbn in H; destruct H as [H|[]]; subst; reflexivity.
+Qed.
+
+Lemma type_errors_plain s o :
+  plain o = true -> operands_ok s o = false -> forall r, In r (step_plain s o) -> is_fail r = true.
+Proof.
+  intros P M r H. unfold operands_ok, top_kind, prev_kind, top_present, prev_present in M.
+  destruct o; try discriminate P; cbn [step_plain req_top req_prev req_joint meets] in *;
+    try discriminate M.
+  - (* -M *) unfold top_addr in M. destruct (stk s); [|discriminate M]. destruct H as [H|[]]. subst. reflexivity.
+  - (* -U *) unfold top_addr in M. destruct (stk s); [|discriminate M]. destruct H as [H|[]]. subst. reflexivity.
+  - (* -c *) crackf H; subst; try reflexivity; try assumption; cbn in M; discriminate.
+  - (* -o *) crackf H; subst; try reflexivity; try assumption; cbn in M; discriminate.
+  - (* -f *) unfold foreach_lines in H. crackf H; subst; try reflexivity; try assumption; cbn in M; discriminate.
+  - (* -u *) crackf H; subst; try reflexivity; try assumption; cbn in M; discriminate.
+  - (* -t *) crackf H; subst; try reflexivity; try assumption; cbn in M; discriminate.
+  - (* -i *) crackf H; subst; try reflexivity; try assumption; cbn in M; discriminate.
+  - (* -a *) crackf H; subst; try reflexivity; try assumption; cbn in M;
+      try discriminate; repeat match goal with n : node |- _ => destruct n as [[]|?|?] end;
+      try match goal with b : bool |- _ => destruct b end; cbn in M; discriminate.
+  - (* -x *) crackf H; subst; try reflexivity; try assumption; cbn in M; discriminate.
+  - (* -d *) crackf H; subst; try reflexivity; try assumption; cbn in M; discriminate.
+  - (* -l *) crackf H; subst; try reflexivity; try assumption; cbn in M; discriminate.
+  - (* -e *) crackf H; subst; try reflexivity; try assumption; cbn in M; discriminate.
+  - (* -g *) crackf H; subst; try reflexivity; try assumption; cbn in M; discriminate.
+  - (* -s *) crackf H; subst; try reflexivity; try assumption; cbn in M; discriminate.
+  - (* -y *) crackf H; subst; try reflexivity; try assumption; cbn in M; discriminate.
+  - (* -Y *) crackf H; subst; try reflexivity; try assumption; cbn in M; discriminate.
+Qed.
+
+(* an option applied to a value of the wrong type, or to a missing TOP / PREV, FAILS in every
+   reading -- it is never ignored.  (Assertions: when not inverted by a pending -X.) *)
+Theorem type_errors st o nxt :
+  operands_ok st o = false ->
+  (is_assert o = true -> inv st = false) ->
+  forall r, In r (step st o nxt) -> is_fail r = true.
+Proof.
+  intros M IA. destruct (plain o) eqn:P.
+  - apply step_fail_plain; [exact P|]. apply type_errors_plain; [exact P|exact M].
+  - destruct o; try discriminate.
+    + intros r H. exact (assert_wrong a st (IA eq_refl) M r H).
+    + discriminate M.
+Qed.
